@@ -3,15 +3,20 @@ import os, json, itertools
 import common, fns, sweeps, crops
 
 PROP = 'C08'
-LEAN_MODULES = ['XyzProofs.Props.C08', 'XyzProofs.Props.C08Grow']
+LEAN_MODULES = ['XyzProofs.Props.C08', 'XyzProofs.Props.C08Grow', 'XyzProofs.Refine.Progress']
 THEOREMS = ['Crop.c08_grow_inv', 'Crop.c08_failed_grow_unchanged', 'Crop.c08_fn_raises', 'Crop.c08_delete_inv',
             'Crop.c08_counts', 'Crop.c08_ready_iff', 'Crop.c08_missing_spec', 'Crop.c08_grow_missing',
             'Crop.c08_resow_keeps_results', 'Crop.length_eq_iff_all', 'Crop.c08_check_bad', 'Crop.c08_check_bad_clean',
             'Crop.c08_unsown_not_ready', 'Crop.c08_handle_irrelevant',
             # on the effect skeleton of the module-level `grow`, translated on every run (anchors_grow.py)
             'GrowSk.growSk_eq_spec', 'GrowSk.c08_grow_write_last', 'GrowSk.c08_grow_writes_iff', 'GrowSk.c08_grow_error_no_write',
-            'GrowSk.c08_finished_iff_grow_completed', 'GrowSk.c08_grow_one_write', 'GrowSk.growOne_refines']
-ANCHORS = ['isReady', 'sowerGetsExtra', 'sowerFlush', 'nbFromBs', 'capNb', 'bsOfNb', 'remOfNb', 'bothOk', 'growSk']
+            'GrowSk.c08_finished_iff_grow_completed', 'GrowSk.c08_grow_one_write', 'GrowSk.growOne_refines',
+            # the progress queries, translated whole over directory queries, are the model's functions
+            'Refine.isPrepared_refines', 'Refine.calcProgress_refines', 'Refine.isReadyToReap_refines', 'Refine.numSownBatches_refines',
+            'Refine.numResults_refines', 'Refine.missingResults_refines', 'Refine.cropGrowIds_spec', 'Refine.growMissingIds_spec']
+ANCHORS = ['isReady', 'sowerGetsExtra', 'sowerFlush', 'nbFromBs', 'capNb', 'bsOfNb', 'remOfNb', 'bothOk', 'growSk',
+           'cropIsPrepared', 'cropCalcProgress', 'cropIsReadyToReap', 'cropMissingResults', 'cropNumSownBatches', 'cropNumResults',
+           'cropGrowIds', 'growMissingIds']
 RULE = ("random histories (length <= 12) of {sow, re-sow with the same shape, grow one id, grow a subset, grow_missing, grow "
         "with a function that raises on chosen settings, delete a result file, corrupt a result + check_bad, a stranded temporary "
         "of a killed grower, reload the Crop, query, query before the first sow, query through a handle made before "
